@@ -51,6 +51,8 @@ def check(tier):
             elif o.startswith("err") or "other:" in o:
                 s, e = runner.script_of(lines, i)
                 fails.append(dict(mode=m, script=lines[s:e], message="%s -> %s" % (l, o), observed=o))
+    rf = worldcommon.reentry_stage(chk, worldcommon.REENTRY_EPS)
+    worldcommon.report_reentry(chk, rf)
     seen = set()
     for f in fails:
         k = f["script"][-1].split("|")[0] + f["mode"]
@@ -60,7 +62,7 @@ def check(tier):
         script = runner.ddmin(f["script"], lambda s, f=f: still_fails(s, f["mode"]), budget=40)
         chk.violation("%s [mode=%s]" % (f["message"], f["mode"]),
                       dict(kind="history", mode=f["mode"], script=script, observed=f["observed"], expected_by="spec", minimised=True, executor_args=["twin"]))
-    if not fails:
+    if not fails and not rf:
         runner.report_divergences(chk, divs, "world-layer correspondence (ZI.World vs adapter.py lookup caches / _subscribe / changed, declarations.py); theorems ZI.Cache.inv_step, lookup_transparent",
                                   "never-queried-twin oracle accepted every lookup")
         core.lean_failure_violation(chk)
@@ -89,6 +91,8 @@ def still_fails(script, mode):
 
 def replay(path):
     rep = runner.load_replay(path)
+    if rep.get("layer") == "reentry":
+        return worldcommon.replay_reentry("C05", rep, path)
     script = rep["script"]
     mode = rep.get("mode", "c")
     out = core.run_impl("world", script, mode, ["twin"])
